@@ -186,6 +186,10 @@ class StmtMixin:
                 continue
             if isinstance(st, ast.Expr) and isinstance(st.value, ast.Constant):
                 continue
+            if isinstance(st, ast.Expr) and isinstance(st.value, ast.Call) and isinstance(st.value.func, ast.Attribute) \
+                    and st.value.func.attr == "append" and isinstance(st.value.func.value, ast.Name) \
+                    and len(st.value.args) == 1 and not st.value.keywords and self.simple_expr(st.value.args[0]):
+                continue      # local_list.append(simple): merged as a list whose length depends on the condition
             if isinstance(st, ast.If):
                 if not (self.simple_expr(st.test) and self.mergeable_block(st.body) and self.mergeable_block(st.orelse)):
                     return False
@@ -318,6 +322,24 @@ class StmtMixin:
                     r2_.fields[f] = m
             elif isinstance(r1_, ListRec) and isinstance(r2_, ListRec):
                 if r1_.concrete and r2_.concrete and len(r1_.items) == len(r2_.items) and all(x is y for x, y in zip(r1_.items, r2_.items)):
+                    continue
+                if r1_.concrete and r2_.concrete:
+                    # one branch appended to a common prefix: a list whose length depends on the condition
+                    short, long_ = (r1_, r2_) if len(r1_.items) <= len(r2_.items) else (r2_, r1_)
+                    if all(x is y for x, y in zip(short.items, long_.items)) and all(isinstance(x, VStr) for x in long_.items):
+                        arr = z3.K(z3.IntSort(), z3.StringVal(""))
+                        for i_, x in enumerate(long_.items):
+                            arr = z3.Store(arr, i_, x.t)
+                        r2_.length = z3.If(t, z3.IntVal(len(r1_.items)), z3.IntVal(len(r2_.items)))
+                        r2_.items = None
+                        r2_.elem = ("str",)
+                        r2_.arr = arr
+                        r2_.sym = self.run.fresh_name("merged")
+                        continue
+                    return fail()
+                if not r1_.concrete and not r2_.concrete and r1_.elem == r2_.elem == ("str",) and r1_.arr is not None and r2_.arr is not None:
+                    r2_.arr = z3.If(t, r1_.arr, r2_.arr)
+                    r2_.length = z3.If(t, r1_.length, r2_.length)
                     continue
                 if not r1_.concrete and not r2_.concrete and r1_.arr is r2_.arr and r1_.elem == r2_.elem:
                     r2_.length = z3.If(t, r1_.length, r2_.length) if r1_.length is not r2_.length else r2_.length
